@@ -171,4 +171,23 @@ ParseHello(b) ==
       S == { i \in 1..Len(inner) : inner[i] = Bar }
       i == IF S = {} THEN 0 ELSE CHOOSE i \in S : \A j \in S : i <= j
   IN [id |-> SubSeq(inner, 1, i - 1), name |-> SubSeq(inner, i + 1, Len(inner))]
+\* ---------------------------------------------------------------- the bundled simulator as a responder
+\* (utils/simulator.py: the peer every connection check talks to).  For a request of the given kind it queues
+\* exactly these answers (verbs), each framed back to the requester with the identifier pair swapped; in RF-error
+\* mode every request that has a handler is answered with RFERR instead - except discovery, which is not gated.
+\* A status-block request is answered by a whole chain (C01), a water-care SET by nothing (no handler, D13).
+SimAnswers(kind, rferr) ==
+  CASE kind = "hello_bcast"  -> <<"HELLO">>
+    [] kind = "hello_client" -> <<>>
+    \* (its handlers are the client's handler classes, which accept a verb in both directions: a ping ANSWER is
+    \*  byte-identical to a ping request, and a PACKS or WCGET answer that reaches the simulator is answered like
+    \*  the corresponding request - modelled as it is)
+    [] kind \in {"ping_req", "ping_resp", "vers_req", "chan_req", "file_req", "wc_req", "wc_resp", "rem_req", "fw_req",
+                 "keypress", "setvalue", "packs"}
+         -> IF rferr THEN <<"RFERR">>
+            ELSE <<CASE kind \in {"ping_req", "ping_resp"} -> "APING" [] kind = "vers_req" -> "SVERS" [] kind = "chan_req" -> "CHCUR"
+                     [] kind = "file_req" -> "FILES" [] kind \in {"wc_req", "wc_resp"} -> "WCGET" [] kind = "rem_req" -> "RMREQ"
+                     [] kind = "fw_req" -> "SUPDT" [] OTHER -> "PACKS">>
+    [] OTHER -> <<>>            \* acknowledgements, answers, water-care set, unknown verbs: nothing
+
 ===============================================================================
